@@ -13,7 +13,7 @@ ID = "C08"
 META = {
     "technique": "runtime monitoring: wrappers around algorithm.run() and algorithm.run_preprocessing() inside real simulations (states reached by a scripted prefix followed by the algorithm itself); every allocation is judged against an independent reference — priority order from independently computed keys, per-session closed-form maximum of the feasible interval (each phasor constraint is a disc, so a quadratic root) for continuous EVSEs, largest oracle-feasible level for finite-rate EVSEs, a 25-line reference round-robin driven by the phasor oracle, exact station maxima for the uncontrolled baseline",
     "design_ref": "DESIGN.md section 6 C08",
-    "level_text": "exploration: thousands (quick) / ~1e5 (thorough) allocations on three-phase mixed-sign networks with unequal voltages and limits, several constraints binding at once, continuous and finite-rate EVSEs, all five sort orders, both algorithms, increments 0.1/0.5/1, with and without uninterrupted charging and fixed estimator bounds, partially served sessions; scenarios on the predefined Caltech/JPL/Office001 networks; allow_overcharging; schedulers built with default options unmentioned",
+    "level_text": "exploration: thousands (quick) / ~1e5 (thorough) allocations on three-phase mixed-sign networks with unequal voltages and limits, several constraints binding at once, continuous and finite-rate EVSEs, all five sort orders, both algorithms, increments 0.1/0.5/1, with and without uninterrupted charging and fixed estimator bounds, partially served sessions; scenarios on the predefined Caltech/JPL/Office001 networks; allow_overcharging; schedulers built with default options unmentioned; a user subclass promising a minimum current that is not a station level",
     "level_note": "each session's own bounds (lower bound, upper bound before the remaining-demand cap) are taken from the observed output of the algorithm's public preprocessing step (C07 judges those bounds); invocations with two priority keys closer than 1e-6 or with a probed level inside the feasibility guard band are counted, not judged; bisection tolerance eps = 0.01 A",
 }
 LEVEL = "exploration"
